@@ -33,6 +33,11 @@ type TableState struct {
 	Idx      int             // position in the table's chain
 	Deletes  []MDel          // deletions contained in the producing commit
 	Returned bool            // the producing Commit has returned
+
+	// frozen is set when the state enters a table's chain: it is immutable from then on and the sorted
+	// index listings used by eval are memoised (large tables are evaluated many times in the final checks)
+	frozen bool
+	memo   map[IndexKind][]entry
 }
 
 func (s *TableState) clone() *TableState {
@@ -123,6 +128,11 @@ type entry struct {
 
 // partEntries lists the (key, object) pairs of a part-backed index in (key, primary key) order.
 func partEntries(kind IndexKind, s *TableState) []entry {
+	if s.frozen {
+		if es, ok := s.memo[kind]; ok {
+			return es
+		}
+	}
 	var out []entry
 	for id, mo := range s.Objs {
 		for _, k := range modelKeys(kind, mo.O) {
@@ -135,10 +145,21 @@ func partEntries(kind IndexKind, s *TableState) []entry {
 		}
 		return out[i].id < out[j].id
 	})
+	if s.frozen {
+		if s.memo == nil {
+			s.memo = map[IndexKind][]entry{}
+		}
+		s.memo[kind] = out
+	}
 	return out
 }
 
 func lpmEntries(kind IndexKind, s *TableState) []entry {
+	if s.frozen {
+		if es, ok := s.memo[kind]; ok {
+			return es
+		}
+	}
 	var out []entry
 	for id, mo := range s.Objs {
 		for _, p := range modelPfxs(kind, mo.O) {
@@ -151,6 +172,12 @@ func lpmEntries(kind IndexKind, s *TableState) []entry {
 		}
 		return out[i].id < out[j].id
 	})
+	if s.frozen {
+		if s.memo == nil {
+			s.memo = map[IndexKind][]entry{}
+		}
+		s.memo[kind] = out
+	}
 	return out
 }
 
